@@ -344,11 +344,11 @@ def rule_errors(ctx: Ctx) -> None:
         ctx.check("isin(['TP','FP','TN'])" in first, "C19-errors", "calculate_error", f"paired-rows:{kind}", "errors are not taken over the paired TP/FP/TN rows", fi=fi)
         if kind == "yaw":
             st = [(S(strip_v(e.recv)), e.kind, e.name, S(e.value)) for e in bp.effects if e.kind in ("store", "aug") and S(strip_v(e.recv)).startswith("err[")]
-            want = {("err[err>np.pi]", "-2*np.pi"), ("err[err<-np.pi]", "2*np.pi")}
+            want = {("err[np.pi<err]", "-2*np.pi"), ("err[err<-np.pi]", "2*np.pi")}
             got = set()
             F = Formula()
             for recv, knd, nm, val in st:
-                m2 = re.match(r"^err\[(err[<>]-?np\.pi)\]$", recv)
+                m2 = re.match(r"^err\[(err<-np\.pi|np\.pi<err)\]$", recv)
                 if not m2:
                     continue
                 try:
